@@ -49,10 +49,10 @@ struct In {
     claim: char,
 }
 
-fn root_handler(approve: bool) -> Option<RootHandler> {
+fn root_handler(approve: bool, onchain: bool) -> Option<RootHandler> {
     let persister = Arc::new(KVVPersister(MemoryKVVStore::new([1u8; 16]), JsonFormat));
     let services = NodeServices {
-        validator_factory: Arc::new(SimpleValidatorFactory::new()),
+        validator_factory: if onchain { Arc::new(lightning_signer::policy::onchain_validator::OnchainValidatorFactory::new()) } else { Arc::new(SimpleValidatorFactory::new()) },
         starting_time_factory: ClockStartingTimeFactory::new(),
         persister: persister as Arc<dyn Persist>,
         clock: Arc::new(StandardClock()),
@@ -82,8 +82,8 @@ fn root_handler(approve: bool) -> Option<RootHandler> {
 pub struct C08Psbt;
 
 impl C08Psbt {
-    fn exec_wd(&self, fund: bool, approve: bool, unknown: bool, ins: &[In], at: usize, co: &mut CaseOut) -> String {
-        let handler = match root_handler(approve) {
+    fn exec_wd(&self, fund: bool, approve: bool, unknown: bool, onchain: bool, ins: &[In], at: usize, co: &mut CaseOut) -> String {
+        let handler = match root_handler(approve, onchain) {
             Some(h) => h,
             None => return "harness-setup-failed handler".into(),
         };
@@ -316,7 +316,7 @@ impl Group for C08Psbt {
                 let claim = if pres == 'n' { 't' } else if pres == 'x' { 'w' } else { *rng.pick(&['w', 'w', 't', 't', 'v']) };
                 ins.push(format!("{}:{}:{}:{}", if own { 'o' } else { 'f' }, ty, pres, claim));
             }
-            ops.push(format!("wd {} {} {} {}", if fund { 1 } else { 0 }, if approve { 'p' } else { 'n' }, if unknown { 1 } else { 0 }, ins.join(",")));
+            ops.push(format!("wd {} {} {} {}{}", if fund { 1 } else { 0 }, if approve { 'p' } else { 'n' }, if unknown { 1 } else { 0 }, ins.join(","), if rng.chance(1, 3) { " o" } else { "" }));
         }
         ops
     }
@@ -326,9 +326,10 @@ impl Group for C08Psbt {
         for (i, op) in ops.iter().enumerate() {
             let t: Vec<&str> = op.split_whitespace().collect();
             let line = match t.as_slice() {
-                ["wd", fund, ap, unk, ins] => match parse_ins(ins) {
+                ["wd", fund, ap, unk, ins] | ["wd", fund, ap, unk, ins, _] => match parse_ins(ins) {
                     Some(ins) => {
-                        let l = self.exec_wd(*fund == "1", *ap == "p", *unk == "1", &ins, i, &mut co);
+                        // a trailing `o`: the node runs vlsd's default OnchainValidatorFactory
+                        let l = self.exec_wd(*fund == "1", *ap == "p", *unk == "1", t.get(5) == Some(&"o"), &ins, i, &mut co);
                         if l.starts_with("signed") { acc = true } else { rej = true }
                         l
                     }
